@@ -6,6 +6,8 @@ from harness import simdrv as S
 from harness import simprops as SP
 
 ID = 'C18'
+BRIDGE_IMPORTS = 'From Eudoxia Require Import Model.SchedSrc.\n'
+BRIDGE = [('sched_overbook', 'ext_sched_overbook = sched_overbook_src', 'reflexivity.')]
 MASK = S.M_DEC | S.M_RES | S.M_POOLS
 ASSUMPTIONS = ['overcommit enabled (the configuration the scheduler is written for)']
 
